@@ -95,20 +95,21 @@ def gen(rng, tier):
                         ax, cs, tag = special_table(rng, ty, nx, ny, den, r, cs)
                     gid += 1
                     cn = sum((flat_sx(c) for c in cs), [])
-                    fam = rng.choice(FAMS)
-                    m = {"g": gid}
-                    out.append(Case("mbr", ty, fam, "-", [nx, ny], ax + cn, tag=tag, meta=m))
                     w = G.grid_opinion(rng, nx, den)
                     wn = w[0] + [w[1]] + ax
-                    st = rng.choice(["own", "ref", "borrowed"])
-                    out.append(Case("deduce", ty, fam, st, [nx, ny], wn + cn, tag=tag, meta=m))
                     fb = G.grid_dist(rng, ny, den, positive=True)
-                    out.append(Case("deduce_with", ty, fam, rng.choice(["own", "ref", "borrowed"]), [nx, ny],
-                                    wn + cn + fb, tag=tag, meta=m))
-                    if all(a > 0 for a in ax):
-                        wy = G.grid_simplex(rng, ny, den)
-                        out.append(Case("abduce", ty, fam, rng.choice(["spx", "ref", "own"]), [nx, ny],
-                                        flat_sx(wy) + cn + ax, tag=tag, meta=m))
+                    wy = G.grid_simplex(rng, ny, den)
+                    m = {"g": gid}
+                    # the tables at the edge of the domain go through every container family and call form
+                    special = tag in SPECIAL
+                    for fam in (FAMS if special else [rng.choice(FAMS)]):
+                        out.append(Case("mbr", ty, fam, "-", [nx, ny], ax + cn, tag=tag, meta=m))
+                        for st in (["own", "ref", "borrowed"] if special else [rng.choice(["own", "ref", "borrowed"])]):
+                            out.append(Case("deduce", ty, fam, st, [nx, ny], wn + cn, tag=tag, meta=m))
+                            out.append(Case("deduce_with", ty, fam, st, [nx, ny], wn + cn + fb, tag=tag, meta=m))
+                        if all(a > 0 for a in ax):
+                            for st in (["spx", "ref", "own"] if special else [rng.choice(["spx", "ref", "own"])]):
+                                out.append(Case("abduce", ty, fam, st, [nx, ny], flat_sx(wy) + cn + ax, tag=tag, meta=m))
     return out
 
 
